@@ -67,7 +67,7 @@ Proof.
   intros H. destruct ev; cbn [step] in H;
     try (destruct (is_server cfg i); [|discriminate]);
     try (destruct (is_client cfg c); [|discriminate]).
-  - left. unfold server_loop in H. repeat (destr_in H; try discriminate). injection H as <-. reflexivity.
+  - left. unfold server_loop in H. repeat (destr_in H; try discriminate); injection H as <-; reflexivity.
   - left. eapply finish_hist; eauto.
   - left. unfold server_step in H. destr_in H; try discriminate. eapply finish_hist; eauto.
   - left. eapply finish_hist; eauto.
@@ -90,7 +90,66 @@ Proof.
     right. right. apply negb_false_iff, Nat.eqb_eq in Hd. cbn in Hd. subst.
     destruct msuccess; [|discriminate].
     eexists _, _, _, _, _, _, _, _. split; [reflexivity|]. eapply nth_error_In; eauto.
-  - unfold client_timeout in H. repeat (destr_in H; try discriminate). injection H as <-. auto.
+  - unfold client_timeout in H. repeat (destr_in H; try discriminate); injection H as <-; auto.
   - unfold crash in H. destr_in H; try discriminate. injection H as <-. auto.
   - unfold fd_update in H. destr_in H; try discriminate. injection H as <-. auto.
+Qed.
+
+Lemma applied_keep cfg s ev s' p e :
+  cfg_fifo cfg = true -> reachable cfg s -> step cfg s ev = Commit s' -> applied cfg s p e -> applied cfg s' p e.
+Proof.
+  intros Hf Hr Hs (i & Hi & H1 & Hp & Hl). exists i.
+  pose proof (commit_monotone_step _ _ _ _ i Hs) as Hm.
+  assert (Hst : steps cfg s s') by (econstructor; [constructor|eauto]).
+  destruct (committed_stable_lemma cfg s s' Hf Hr Hst i i p H1 Hp) as [E _]; [lia|].
+  repeat split; auto; [lia|]. now rewrite E.
+Qed.
+
+Lemma crp_inv_keep cfg s ev s' m :
+  cfg_fifo cfg = true -> reachable cfg s -> step cfg s ev = Commit s' -> crp_inv cfg s m -> crp_inv cfg s' m.
+Proof.
+  intros Hf Hr Hs. destruct m; auto. destruct msuccess; auto. cbn.
+  intros (p & e & Ha & Hm). exists p, e. split; auto. eapply applied_keep; eauto.
+Qed.
+
+Lemma ninv_step cfg s ev s' :
+  cfg_fifo cfg = true -> reachable cfg s -> ninv cfg s -> step cfg s ev = Commit s' -> ninv cfg s'.
+Proof.
+  intros Hf Hr IN Hs. constructor.
+  - intros d m Hin. destruct (net_in_cases _ _ _ _ Hs _ _ Hin) as [Ho|[Hsent|(c & cm & ->)]]; [| |exact Logic.I].
+    + eapply crp_inv_keep; eauto. eapply N1; eauto.
+    + destruct Hsent as (i & l & md & ltr & Hi & Hc & _). destruct m; try exact Logic.I. destruct msuccess; try exact Logic.I.
+      destruct (core_crp_out _ _ _ _ _ _ _ _ _ _ _ _ _ _ _ _ _ Hc) as (e & Hl & Hcm & Hlog & Hmt).
+      cbn. exists (s_commit (srv s i) + 1), e. split; auto.
+      exists i. repeat split; auto; try lia. now rewrite Hlog.
+  - intros c idx t key v ok Hin.
+    assert (Hold : In (HResp c idx t key v ok) (hist s) -> exists p e, applied cfg s' p e /\ resp_matches e c idx t key v ok).
+    { intros Ho. destruct (N2 _ _ IN _ _ _ _ _ _ Ho) as (p & e & Ha & Hm). exists p, e. split; auto. eapply applied_keep; eauto. }
+    destruct (hist_step_cases _ _ _ _ Hs) as [E|[(c0 & i0 & r0 & E)|(c0 & i0 & t0 & k0 & v0 & ok0 & hint & a0 & E & Hnet)]];
+      rewrite E in Hin; auto.
+    + destruct Hin as [Hin|Hin]; [discriminate|auto].
+    + destruct Hin as [Hin|Hin]; auto. injection Hin as -> -> -> -> -> ->.
+      pose proof (N1 _ _ IN _ _ Hnet) as Hc. cbn in Hc. destruct Hc as (p & e & Ha & Hm).
+      exists p, e. split; auto. eapply applied_keep; eauto.
+Qed.
+
+Lemma ninv_init cfg : ninv cfg (init cfg).
+Proof. constructor; cbn; tauto. Qed.
+
+Lemma reachable_ninv cfg s : cfg_fifo cfg = true -> reachable cfg s -> ninv cfg s.
+Proof. intros Hf. induction 1; [apply ninv_init | eapply ninv_step; eauto]. Qed.
+
+(* An acknowledged Put(key,v) of client c (its idx-th request): the log entry that produced the acknowledgement is applied at
+   some index p now, and at every later point of the execution every server that has committed index p holds exactly that entry there. *)
+Theorem acknowledged_put_never_lost_lemma cfg s1 c idx key v ok :
+  cfg_fifo cfg = true -> reachable cfg s1 -> In (HResp c idx CPut key v ok) (hist s1) ->
+  exists p e, e_client e = c /\ e_cmd e = mkCmd idx CPut key v /\ ok = true /\ applied cfg s1 p e /\
+    forall s2, steps cfg s1 s2 -> forall j, p <= s_commit (srv s2 j) -> log_at (s_log (srv s2 j)) p = Some e.
+Proof.
+  intros Hf Hr Hin. destruct (N2 _ _ (reachable_ninv _ _ Hf Hr) _ _ _ _ _ _ Hin) as (p & e & Ha & (M1 & M2 & M3 & M4 & M5)).
+  destruct (M5 eq_refl) as [M6 ->].
+  exists p, e. repeat split; auto.
+  - destruct e as [et [ci ct ck cv] ec]. cbn in *. congruence.
+  - intros s2 Hs j Hj. destruct Ha as (i & Hi & H1 & Hp & Hl).
+    destruct (committed_stable_lemma cfg s1 s2 Hf Hr Hs i j p H1 Hp Hj) as [E _]. now rewrite E.
 Qed.
